@@ -864,6 +864,13 @@ class XsdElement(XsdComponent, ParticleMixin,
                 counter.enabled = False
                 if isinstance(identity, XsdKeyref):
                     assert isinstance(counter, KeyrefCounter)
+                    if isinstance(identity.refer, XsdIdentity) and \
+                            identity.refer not in context.identities:
+                        # The element of the referenced key/unique doesn't occur
+                        # in this scope: the referenced table is empty.
+                        refer_counter = identity.refer.get_counter(obj)
+                        refer_counter.enabled = False
+                        context.identities[identity.refer] = refer_counter
                     for error in counter.iter_errors(context.identities):
                         context.validation_error(validation, self, error, obj)
         elif context.level:
